@@ -63,7 +63,7 @@ def explore(task):
     fn = llm_fn_for(path, version)
     nonce = [0]
 
-    def run_conv(fault_turn, fault_idx, kind, fresh=False):
+    def run_conv(fault_turn, fault_idx, kind, fresh=False, second=None):
         """returns list of Turn; faults are indices relative to the action log at the start of the faulted turn.
         fresh=True: from the faulted turn on the conversation is served by a NEW instance (the client brings the
         message history / the serialised state) - nothing of the earlier turns is cached there."""
@@ -79,6 +79,9 @@ def explore(task):
                     world = build(version, dialog, exceptions)
                 base = len(world.action_log)
                 faults = tuple(base + i for i in fault_idx)
+            elif second is not None and t == second[0]:
+                base = len(world.action_log)
+                faults = tuple(base + i for i in second[1])
             if v2:
                 turn = rw.run_turn(world, [{"role": "user", "content": user_text}], verd, fn, faults=faults, fault_kind=kind, state=ctx)
                 if turn.reply is not None:
@@ -114,21 +117,32 @@ def explore(task):
     if pairs:
         index_sets += list(itertools.combinations(range(n_sites), 2))
     plan = [(ft, idx, kind, False) for ft in range(1, turns) for idx in index_sets for kind in kinds]
+    # faults in two different turns of one conversation (the follow-up turn is then turn 3)
+    second_plan = [((1, (i,)), (2, (j,))) for i in range(n_sites) for j in range(n_sites)] if turns >= 3 else []
     # the faulted turn (turn 2) served by a fresh instance: single faults, raise only
     plan += [(2, (i,), "raise", True) for i in range(n_sites)]
-    for fault_turn, idx, kind, fresh in plan:
+    full_plan = [(ft, idx, kind, fresh, None) for ft, idx, kind, fresh in plan] + [(a[0], a[1], "raise", False, b) for a, b in second_plan]
+    for fault_turn, idx, kind, fresh, second in full_plan:
         if True:
             if True:
-                conv = run_conv(fault_turn, idx, kind, fresh)
+                conv = run_conv(fault_turn, idx, kind, fresh, second)
+                if second is not None:
+                    # judge the *second* faulted turn; the follow-up is the turn after it
+                    fault_turn = second[0]
                 res["conversations"] += 1
                 res["faults_injected"] += len(idx)
                 ft = conv[fault_turn - 1] if len(conv) >= fault_turn else conv[-1]
                 failed_sites = [(a.get("rail") or a["action"]) for a in ft.actions if a.get("fault")]
-                info = dict(info0, fault_turn=fault_turn, fault_indices=list(idx), fault_kind=kind, failed_sites=failed_sites, fresh_instance=fresh)
+                info = dict(info0, fault_turn=fault_turn, fault_indices=list(idx), fault_kind=kind, failed_sites=failed_sites, fresh_instance=fresh,
+                            earlier_fault=(None if second is None else {"turn": 1, "indices": list(idx)}))
+                if second is not None:
+                    info["fault_indices"] = list(second[1])
 
                 def bad(sig, what):
                     if fresh:
                         res["viol"].append((f"{sig}:{'v2' if v2 else 'v1'}:fresh-instance-uncached-history", what, info))
+                    elif second is not None:
+                        res["viol"].append((f"{sig}:{'v2' if v2 else 'v1'}:{path}:second-fault-after-a-hidden-turn:{'+'.join(failed_sites) or 'none'}", what, info))
                     else:
                         res["viol"].append((f"{sig}:{'v2' if v2 else 'v1'}:{path}:{'+'.join(failed_sites) or 'none'}:{kind}", what, info))
 
